@@ -261,10 +261,12 @@ BOUND_KINDS = ("index-operand-is-bound-value", "view-offset-is-bound-value", "ev
 
 def sig_trace(pname, feats, mis):
     if pname == CANON:
-        if "nondiv" in feats:
-            return "canon-for:change-step:ub-not-multiple-of-step:trace-differs"
+        # the imperfect-nest merge is a known finding that stays (upstream's lit test expects it): it takes precedence, so that the
+        # repaired defects below are reported under their own signature only in programs that do not also merge an imperfect nest
         if "imperfect" in feats:
             return "canon-for:merge:imperfect-nest:trace-differs"
+        if "nondiv" in feats:
+            return "canon-for:change-step:ub-not-multiple-of-step:trace-differs"
         if "negative-ubs-in-merge-chain" in feats:
             return "canon-for:merge:negative-upper-bounds:trace-differs"
         return "canon-for:trace:" + mis["kind"]
